@@ -262,6 +262,7 @@ def run_history(fam, kind, rng, rec, h, pal):
                     rec.ev('stale-separator-trees')
             except TypeError:
                 pass
+        sweep_now = False
         if conns is not None and not stale_mode:
             inl = False
             if is_tree:
@@ -285,9 +286,7 @@ def run_history(fam, kind, rng, rec, h, pal):
                         minidb.embedded_but_leaf_has_oid(conns['py'], p)):
                     conns = None        # F34 condition: stop sweeping
             elif r_ < 0.55:
-                for cn_ in conns.values():
-                    cn_.cache.minimize()
-                rec.ev('stored:sweep')
+                sweep_now = True
         op, args = g.next_op(w, present)
         hostile = None
         if rng.random() < 0.27 and args:
@@ -337,6 +336,12 @@ def run_history(fam, kind, rng, rec, h, pal):
             log.pop()
             continue
         pre = harness.contents(c, is_mapping)
+        if sweep_now and conns is not None:
+            # right before the call (everything above re-activated the
+            # nodes): the operation itself must meet ghosts
+            for cn_ in conns.values():
+                cn_.cache.minimize()
+            rec.ev('stored:sweep')
         oc = call(c, op, ca)
         opy = call(p, op, pa)
         rec.evaluations += 1
